@@ -9,6 +9,10 @@
 (*   rseq, rcompose, rcombine  the same on a second, equal value           *)
 (*   unchanged               var_context of every variable as before       *)
 (* Only what the statement fixes is demanded (see VarSem!Required).        *)
+(* The data may be an integer, None, a tuple or a pair that looks like a   *)
+(* (data, context) value; the recorded chain must be one whose getters can *)
+(* take the data (DefChain); Combine(chain) is recorded only when every    *)
+(* member can take the starting data (otherwise the field is ignored).     *)
 (***************************************************************************)
 EXTENDS VarSem, Json, IOUtils
 
@@ -21,18 +25,23 @@ Ok(r) ==
   LET ch == r.chain
       st == r.start
       cb == VC(Cmb(ch))
-  IN /\ r.seq.d = GetChain(ch, st.d) /\ r.compose.d = r.seq.d
-     /\ (HasUntyped(ch) /\ PrevTypes(st.c) # <<>>) \/ r.seq.c = r.compose.c
-     /\ Has(r.seq.c, "variable") /\ Has(r.combine.c, "variable")
+      combok == \A j \in 1..Len(ch) : Def(ch[j], st.d)
+  IN /\ DefChain(ch, st.d)
+     /\ r.seq.d = GetChain(ch, st.d) /\ r.compose.d = r.seq.d
+     /\ (LosesTypes(ch) /\ PrevTypes(st.c) # <<>>) \/ r.seq.c = r.compose.c
+     /\ Has(r.seq.c, "variable")
      /\ Contains(r.seq.c.m["variable"], LastVC(ch))
      /\ (AllTyped(ch) /\ DistinctTypes(ch)) =>
            /\ Contains(r.seq.c.m["variable"], RequiredC(st.c, ch))
            /\ Contains(r.compose.c.m["variable"], RequiredC(st.c, ch))
-     /\ (~Plain(ch) /\ ~HasUntyped(ch)) => ComposeListOk(st.c, ch, r.seq.c.m["variable"])
-     /\ r.combine.d = DT([j \in 1..Len(ch) |-> Get(ch[j], st.d)])
-     /\ Contains(r.combine.c.m["variable"],
-                 D([x \in {"name", "dim", "combine"} |-> cb.m[x]]))
-     /\ Rest(r.seq.c) = Rest(st.c) /\ Rest(r.compose.c) = Rest(st.c) /\ Rest(r.combine.c) = Rest(st.c)
+     /\ (~Plain(ch) /\ ~LosesTypes(ch)) => ComposeListOk(st.c, ch, r.seq.c.m["variable"])
+     /\ combok =>
+           /\ r.combine.d = DT([j \in 1..Len(ch) |-> Get(ch[j], st.d)])
+           /\ Has(r.combine.c, "variable")
+           /\ Contains(r.combine.c.m["variable"],
+                       D([x \in {"name", "dim", "combine"} |-> cb.m[x]]))
+           /\ Rest(r.combine.c) = Rest(st.c)
+     /\ Rest(r.seq.c) = Rest(st.c) /\ Rest(r.compose.c) = Rest(st.c)
      /\ r.unchanged
      /\ r.rseq = r.seq /\ r.rcompose = r.compose /\ r.rcombine = r.combine
 
